@@ -226,6 +226,10 @@ func runC11(r *Run) {
 		r.Bad("R4", "anchor/ReadPastPeriodCount", "", "not found")
 	}
 
+	// the redeemed schedule is merged relative to the liquid denom's own start
+	r.Rule("R5", "FLOW.grant-start (same rule code as C09 R5): the start time handed to addGrant derives from the grant's own start and never from the target account's StartTime — otherwise Redeem into an account that started before the liquid denom releases the redeemed coins earlier than the original schedule")
+	checkGrantStart(r, "R5")
+
 	// the denom store records exactly the schedule it is handed
 	r.Rule("R3", "FLOW.schedule-stored-unmodified: UpdateDenomPeriods stores its periods parameter itself into Denom.LockupPeriods and then SetDenom; CreateDenom stores its periods parameter itself and an EndTime derived from start + periods.TotalLength()")
 	if fn, ok := P.FnOK("(" + lk + ".Keeper).UpdateDenomPeriods"); ok {
